@@ -374,7 +374,9 @@ def run_jobs(jobs, seed, stdin_by_job=None):
         key = b + " " + (str(args[0]) if args else "")
         counts[key] = counts.get(key, 0) + len(out)
         if p.returncode != 0:
-            failures.append((key, e.decode("utf-8", "replace")[-400:]))
+            err = e.decode("utf-8", "replace")
+            k = err.rfind("HIST-BEGIN")
+            failures.append((key, err[k:][-6000:] if k >= 0 else err[-1500:]))
     return lines, counts, failures
 
 
@@ -436,6 +438,12 @@ def simple_check(ctx, jobs, rule, nontrivial, describe=None, known_filter=None, 
             violation(ctx, f"{pid} proof obligations no longer check: " + st["detail"].strip()[:300],
                       dict(kind="proof-broken", detail=st["detail"], failed=st.get("failed_decls", []),
                            searched=f"{len(lines)} generated cases against the property's clauses: no failing input"), no_input=True)
+        elif hb_ok and failures and any("HIST-BEGIN" in f[1] or "panicked" in f[1] for f in failures):
+            key, err = [f for f in failures if "HIST-BEGIN" in f[1] or "panicked" in f[1]][0]
+            msg = [l for l in err.splitlines() if "panicked" in l or "overflow" in l or "abort" in l.lower()]
+            violation(ctx, f"the real code crashed while the harness executed a generated history ({(msg or ['process died'])[0][:200]})",
+                      dict(kind="crash-in-implementation", harness_job=key, history_so_far=[l for l in err.splitlines() if l.startswith("EV") or l.startswith("HIST")],
+                           stderr_tail=err[-2500:], replay_cmd=f"VERIF_SEED={ctx.seed} harness/target/release/" + key))
         elif not hb_ok or failures:
             violation(ctx, "correspondence harness does not build/run against the current tree",
                       dict(kind="correspondence-broken", detail=(hb_out[-1500:] if not hb_ok else str(failures))), no_input=True)
